@@ -234,4 +234,9 @@ def run(ctx: Ctx) -> None:
             ok = ok and isinstance(val, (int, float)) and val > 0
         ctx.check("C18.R5", "config:Config", f"default {k}", ok, f"Config.{k} default is {norm(v) if v is not None else 'missing'}", v)
 
+    from ..core import Alias
+    from . import c06
+
+    c06.run(Alias(ctx, "C18.R6", "HTTP/1: connection: close is announced exactly when keep_alive_requests >= keep_alive_max_requests and the counter grows by one per request (same analysis as C06.R2)", only={"C06.R2"}))
+
     ctx.assume("not decided: that h11 / h2 / wsproto enforce the limits they are configured with (trusted libraries)")
